@@ -45,7 +45,10 @@ def _base(case, kind="ndvi"):
     if kind == "binary":
         arr = (r > 0).astype("uint8")
     elif kind == "rain":
-        arr = np.abs(r).astype(case.get("dtype", "int16"))
+        # rainfall cubes are non-negative, except: cells equal to the nodata value stay nodata, and a third of the negative cells stay
+        # negative (not observations either: C08 - their result is nodata, whatever the neighbouring pixels hold)
+        ri = r.astype("int64")
+        arr = np.where((r == case.get("nodata", -3000)) | ((r < 0) & (ri % 3 == 0)), r, np.abs(r)).astype(case.get("dtype", "int16"))
     else:
         arr = r.astype(case.get("dtype", "int16"))
     da = xr.DataArray(arr, dims=("y", "x", "time"), coords={"time": T[:nt], "y": np.arange(ny) * 1.0, "x": np.arange(nx) * 2.0},
@@ -257,6 +260,47 @@ def sub_pixel_perm(case):
             "pixel result depends on neighbours")
 
 
+LARGE_OPS = ["zonal_mean", "zonal_mean_f64", "autocorr", "lroo", "rolling_sum", "mean_grp", "mktrend_nd", "whits_s", "spi"]
+
+
+def sub_large(case):
+    """Cubes beyond any plausible size gate (> 2^20 cells): the result must not depend on the number of Numba threads, must repeat itself,
+    and must equal the result of the same data cut into dask blocks (space-chunked; time-chunked as well for zonal.mean)."""
+    import numba
+
+    ny, nx, nt = case["shape"]
+    rng = np.random.default_rng(int(case["salt"]))  # a pure function of the case: replayable
+    vals = rng.integers(-500, 9000, size=ny * nx * nt)
+    vals[rng.integers(0, vals.size, size=vals.size // 50)] = -3000
+    c = {"op": case["op"], "shape": [ny, nx, nt], "values": vals, "nodata": -3000, "dtype": case.get("dtype", "int16"), "dims": ["y", "x", "time"], "materialize": True}
+    d = _input(c)
+    what = "%s on %d cells" % (case["op"], vals.size)
+    old = numba.get_num_threads()
+    try:
+        numba.set_num_threads(1)
+        ref = _vars(call(what + " (1 thread)", lambda: _run(c, d)))
+        numba.set_num_threads(numba.config.NUMBA_NUM_THREADS)
+        runs = [("%d threads, run %d" % (numba.config.NUMBA_NUM_THREADS, k + 1), _vars(call(what, lambda: _run(c, d)))) for k in range(2)]
+        if "y" in d.dims:
+            chunks = {"y": -1, "x": -1, "time": 1} if case["op"].startswith("zonal") and case.get("tchunk") else {"y": ny // 3 + 1, "x": -1, "time": -1}
+            if case["op"].startswith("zonal") and not case.get("tchunk"):
+                chunks = None  # zonal.mean reduces over y/x: only the time axis may be cut
+            if chunks is not None:
+                with warnings.catch_warnings():
+                    warnings.simplefilter("ignore")
+                    lz = _ops()[case["op"]][1](d.chunk(chunks), c)
+                    with dask.config.set(scheduler="threads", num_workers=4):
+                        runs.append(("dask blocks %s" % chunks, _vars(call(what + " (dask)", lambda: lz.compute()))))
+    finally:
+        numba.set_num_threads(old)
+    for label, res in runs:
+        for k in ref:
+            req(res[k].shape == ref[k].shape and np.array_equal(ref[k].values, res[k].values, equal_nan=(ref[k].dtype.kind == "f")),
+                "%s[%s]: %s differs from the single-threaded in-memory run at %d of %d elements" % (
+                    what, k, label, int((~((ref[k].values == res[k].values) | ((ref[k].values != ref[k].values) & (res[k].values != res[k].values)))).sum()) if res[k].shape == ref[k].shape else -1,
+                    ref[k].size), "large cube: result depends on threads / blocks")
+
+
 def sub_threads(case):
     import numba
     from hdc.algo.ops.ws2doptvplc import ws2doptvplc_tyx
@@ -366,7 +410,7 @@ def sub_real_race(case, proc=None):
         "race wrong result")
 
 
-SUBS = {"joint": sub_joint, "lazy": sub_lazy, "time_chunked": sub_time_chunked, "pixel_perm": sub_pixel_perm, "threads": sub_threads, "schedule": sub_schedule,
+SUBS = {"large": sub_large, "joint": sub_joint, "lazy": sub_lazy, "time_chunked": sub_time_chunked, "pixel_perm": sub_pixel_perm, "threads": sub_threads, "schedule": sub_schedule,
         "real_race": sub_real_race}
 
 
@@ -445,6 +489,16 @@ def run(ctx):
     for op in sorted(_ops()):
         if op not in ("zonal_mean", "zonal_mean_f64", "whits_sg", "whitsvc_lc"):
             ctx.given("pixel_perm", cube([op]), ctx.n(6, 25), fn=f_pp, shrink=False)
+
+    # cubes beyond any size gate: thread count, repetition, dask blocks
+    for i, op in enumerate(LARGE_OPS):
+        if i % ctx.n(3, 1) != ctx.seed % ctx.n(3, 1) and op not in ("zonal_mean", "zonal_mean_f64"):
+            continue  # quick tier: both zonal means every time, a third of the pixel operations per seed
+        shape = [200, 210, 26] if op.startswith("zonal") else [512, 520, 5] if op != "spi" else [160, 170, 40]
+        case = {"op": op, "shape": shape, "salt": ctx.seed * 101 + i, "tchunk": bool((ctx.seed + i) % 2) or op == "zonal_mean"}
+        rec.case("large", case, nontrivial=True, cls="large:" + op)
+        if not ctx.run_case("large", case):
+            return
 
     # thread counts of the prange kernel
     def f_th(case):
